@@ -260,7 +260,7 @@ def r_verdict_space(rep, facts, rid='C09/R11', length=3, alphabet=8):
     rep.info(R, f'{n_acc} documents accepted with the same tree, {n_ref} refused, as the reference decoder does')
 
 
-def r_spans(rep, facts, rid='C14/R14'):
+def r_spans(rep, facts, rid='C14/R14', label='', editable_only=False):
     """the spans the parser leaves in the tree, read through /repo's own accessors, against the source text"""
     R = rep.rule(rid, 'spans point at the text of each item: the model documents are taken through the semantic actions of the grammar rules and ParseState in the evaluator, then Key::span, '
                  'Item::span (values, tables, arrays of tables) of the current tree are evaluated on everything in the tree: every span lies inside the document with start <= end, a child\'s '
@@ -408,8 +408,10 @@ def r_spans(rep, facts, rid='C14/R14'):
         except (Unanalysable, TypeError, KeyError, IndexError, AttributeError, ValueError) as ex:
             rep.incomplete(R, name, f'cannot evaluate the spans of the model document `{name}`: {type(ex).__name__}: {ex}')
             continue
-        rep.check(R, name, not bad, f'{n[0]} entries', f'in the model document `{name}` ({text!r:.100}): ' + '; '.join(bad[:3]))
-        rep.check(R, name + '|editable', not stale, 'no span left after into_mut', f'after ImDocument::into_mut of the model document `{name}` a span is still reported for {stale[:4]}')
+        if not editable_only:
+            rep.check(R, label + name, not bad, f'{n[0]} entries', f'in the model document `{name}` ({text!r:.100}): ' + '; '.join(bad[:3]))
+        rep.check(R, label + name + '|editable', not stale, 'no span left after into_mut',
+                  f'after ImDocument::into_mut of the model document `{name}` a span is still reported for {stale[:4]}' + (f' (configuration {label.strip("| ")})' if label else ''))
 
 
 EDIT_DOC = ('# head\n'
